@@ -304,7 +304,9 @@ pub fn run_create_archive(c: &CompressCase, buffers: usize, sched: Vec<Ev>) -> R
     };
     let src = c.src.clone();
     let r = std::panic::catch_unwind(move || {
-        let rt = tokio::runtime::Builder::new_multi_thread().worker_threads(3).enable_all().build().unwrap();
+        // one shared multi-thread runtime (workers + blocking pool) for all runs of the suite
+        static RT: std::sync::OnceLock<tokio::runtime::Runtime> = std::sync::OnceLock::new();
+        let rt = RT.get_or_init(|| tokio::runtime::Builder::new_multi_thread().worker_threads(3).enable_all().build().unwrap());
         rt.block_on(async move {
             let reader = ScriptReader::new(src, sched);
             let mut out: Vec<u8> = vec![];
@@ -477,7 +479,7 @@ pub fn gen_compress_case(rng: &mut Rng, big: bool) -> CompressCase {
         let k = match rng.below(3) { 0 => String::new(), 1 => "ключ".to_string(), _ => format!("key{}", rng.below(10)) };
         meta.insert(k, (0..rng.below(10)).map(|_| rng.next() as u8).collect());
     }
-    CompressCase { cfg, hashlen: *rng.pick(&[4usize, 8, 16, 33, 64]), comp: if rng.chance(1, 2) { None } else { Some(rng.range(1, 11) as u32) }, meta, src }
+    CompressCase { cfg, hashlen: *rng.pick(&[4usize, 8, 16, 33, 64]), comp: if rng.chance(1, 2) { None } else { Some(if rng.chance(1, 6) { rng.range(7, 11) } else { rng.range(1, 6) } as u32) }, meta, src }
 }
 
 pub fn compress_line(c: &CompressCase, archive: &[u8]) -> String {
@@ -502,7 +504,7 @@ pub fn compress_line(c: &CompressCase, archive: &[u8]) -> String {
 pub fn suite_compress(dir: &str, seed: u64, thorough: bool, st: &mut Stats) {
     let mut rng = Rng::new(seed ^ 0x74);
     let mut out = SuiteOut::new(dir, "compress");
-    let n = if thorough { 1500 } else { 160 };
+    let n = if thorough { 1500 } else { 100 };
     let nbig = if thorough { 4 } else { 1 };
     for i in 0..(n + nbig) {
         let big = i >= n;
@@ -536,7 +538,8 @@ pub fn suite_compress(dir: &str, seed: u64, thorough: bool, st: &mut Stats) {
                         if bytes.len() > 200 { st.nontrivial_key(line.as_bytes()); }
                         st.sample(format!("compress {} hl={} comp={:?} src={}B", c.cfg.line(), c.hashlen, c.comp, c.src.len()));
                     }
-                    if r == 0 || !big { out.push(&line, &format!("OK {}", hex(&bytes))); }
+                    // the > 1 MiB case is run through the model only in the thorough tier (about a minute of model time)
+                    if (r == 0 && thorough) || !big { out.push(&line, &format!("OK {}", hex(&bytes))); }
                 }
                 Err(e) => {
                     st.violation("C11", &format!("library writer failed on a valid configuration: {}", e), &compress_line(&c, &[]));
